@@ -104,7 +104,8 @@ def patchFunc (ty : DynType) (minSize symSize : Nat) (c : Code) (start a tramp :
   | .pg => (c, .skipped)
   | .fentry => (c, .skipped)
 
-/-- unpatch_func(insn) -/
+/-- unpatch_func(insn) as it is in the code: any `e8` / `ff 15` is overwritten
+    (= `unpatchAtG` with `fixed = false`, see `unpatchAtG_false`) -/
 def unpatchAt (c : Code) (o : Nat) : Code × Res :=
   if rd c o == 0xe8 then (writeAt c o unpatch_nop5, .success)
   else if rd c o == 0xff && rd c (o + 1) == 0x15 then (writeAt c o unpatch_nop6, .success)
@@ -128,6 +129,7 @@ structure Sym where
   addr : Nat
   size : Nat
   isFunc : Bool        -- type ∈ {LOCAL_FUNC, GLOBAL_FUNC, WEAK_FUNC}
+  isPlt : Bool := false  -- type = ST_PLT_FUNC (a PLT entry merged in from the dynamic symbols)
   deriving Repr, DecidableEq
 
 def csuSkipSyms : List String := ["_start", "__libc_csu_init", "__libc_csu_fini"]
@@ -149,6 +151,14 @@ structure Cfg where
   start : Nat
   tramp : Nat
   locs : List Nat      -- mdi->patch_target as relative addresses
+  /-- false = unpatch_func as it is (any `e8` / `ff 15` is overwritten: finding
+      C14-unpatch-any-call); true = the proposed repair (the call must enter the tracer) -/
+  fixed : Bool := true
+  mapLen : Nat := 0          -- map->end - map->start
+  textLo : Nat := 0          -- mdi->text_addr - map->start
+  textHi : Nat := 0          -- mdi->text_addr + mdi->text_size - map->start
+  symtab : List Sym := []    -- map->mod->symtab (what find_sym searches)
+  entryFuncs : List Nat := []  -- addresses of __fentry__ and mcount inside libmcount
 
 structure LoopSt where
   code : Code
@@ -163,6 +173,74 @@ def bumpStats (st : Stats) : Res → Stats
 def findLoc (locs : List Nat) (s : Sym) : Option Nat :=
   locs.find? fun l => s.addr ≤ l && l < s.addr + s.size
 
+/-- find_sym(symtab, addr) -/
+def findSym (syms : List Sym) (a : Nat) : Option Sym :=
+  syms.find? fun s => s.addr ≤ a && a < s.addr + s.size
+
+/-! ### unpatch with the call-target test (`fixed = true`: proposed repair of
+    finding C14-unpatch-any-call; `fixed = false`: the code as it is) -/
+
+/-- little-endian loads from the image (`memcpy(&x, p, sizeof(x))`) -/
+def rd32 (c : Code) (o : Nat) : Nat :=
+  (rd c o).toNat + 256 * (rd c (o + 1)).toNat + 65536 * (rd c (o + 2)).toNat +
+    16777216 * (rd c (o + 3)).toNat
+
+def rd64 (c : Code) (o : Nat) : Nat := rd32 c o + 4294967296 * rd32 c (o + 4)
+
+/-- `x + (int32_t)d` in `unsigned long` arithmetic (d = the 32-bit field, x < 2^64) -/
+def addS32 (x d : Nat) : Nat :=
+  if d < 2 ^ 31 then (x + d) % 2 ^ 64 else (x + 2 ^ 64 - (2 ^ 32 - d)) % 2 ^ 64
+
+/-- is_trace_entry_name -/
+def entryNames : List String := ["__fentry__", "mcount", "_mcount"]
+
+/-- where the `call rel32` at offset `o` goes (absolute, 64-bit wrap) -/
+def callTarget (cfg : Cfg) (c : Code) (o : Nat) : Nat :=
+  addS32 ((cfg.start + o + CALL_INSN_SIZE) % 2 ^ 64) (rd32 c (o + 1))
+
+/-- calls_trace_entry for `e8 rel32`: the target is this module's trampoline, or
+    find_sym says it lies in a PLT entry named __fentry__ / mcount / _mcount -/
+def callsEntryDirect (cfg : Cfg) (c : Code) (o : Nat) : Bool :=
+  let target := callTarget cfg c o
+  (cfg.tramp != 0 && target == cfg.tramp) ||
+  (match findSym cfg.symtab ((target + 2 ^ 64 - cfg.start % 2 ^ 64) % 2 ^ 64) with
+   | some s => s.isPlt && entryNames.contains s.name
+   | none => false)
+
+/-- the GOT slot used by the `call *disp32(%rip)` at offset `o` (absolute) -/
+def gotSlot (cfg : Cfg) (c : Code) (o : Nat) : Nat :=
+  addS32 ((cfg.start + o + 6) % 2 ^ 64) (rd32 c (o + 2))
+
+/-- calls_trace_entry for `ff 15 disp32`: the slot lies in this module's mapping,
+    entirely outside the code segment, and holds the address of __fentry__ / mcount -/
+def callsEntryGot (cfg : Cfg) (c : Code) (o : Nat) : Bool :=
+  let slot := gotSlot cfg c o
+  let mend := cfg.start + cfg.mapLen
+  if slot < cfg.start ∨ mend ≤ slot ∨ mend - slot < 8 then false else
+  let rel := slot - cfg.start
+  if cfg.textLo < rel + 8 ∧ rel < cfg.textHi then false else
+  cfg.entryFuncs.contains (rd64 c rel)
+
+/-- unpatch_func(mdi, insn) -/
+def unpatchAtG (cfg : Cfg) (c : Code) (o : Nat) : Code × Res :=
+  if rd c o == 0xe8 then
+    if cfg.fixed && !callsEntryDirect cfg c o then (c, .skipped)
+    else (writeAt c o unpatch_nop5, .success)
+  else if rd c o == 0xff && rd c (o + 1) == 0x15 then
+    if cfg.fixed && !callsEntryGot cfg c o then (c, .skipped)
+    else (writeAt c o unpatch_nop6, .success)
+  else (c, .skipped)
+
+/-- mcount_unpatch_func (see `unpatchFunc`) with the call-target test -/
+def unpatchFuncG (cfg : Cfg) (c : Code) (a : Nat) (loc : Option Nat) : Code × Res :=
+  match cfg.ty with
+  | .fentry => unpatchAtG cfg c a
+  | .patchable => unpatchAtG cfg c a
+  | .pg => (match loc with
+            | some l => unpatchAtG cfg c l
+            | none => (c, .skipped))
+  | _ => (c, .skipped)
+
 /-- the code effect of one loop iteration once the verdict is known -/
 def stepCode (cfg : Cfg) (v : Option Bool) (c : Code) (s : Sym) : Code × Option Res :=
   match v with
@@ -170,7 +248,7 @@ def stepCode (cfg : Cfg) (v : Option Bool) (c : Code) (s : Sym) : Code × Option
   | some true =>
     let r := patchFunc cfg.ty cfg.minSize s.size c cfg.start s.addr cfg.tramp
     (r.1, some r.2)
-  | some false => ((unpatchFunc cfg.ty c s.addr (findLoc cfg.locs s)).1, none)
+  | some false => ((unpatchFuncG cfg c s.addr (findLoc cfg.locs s)).1, none)
 
 /-- `match … mcount_patch_func_with_stats / mcount_unpatch_func` for one symbol -/
 def stepSym (cfg : Cfg) (verdict : String → Option Bool) (st : LoopSt) (s : Sym) : LoopSt :=
@@ -183,10 +261,6 @@ def stepSym (cfg : Cfg) (verdict : String → Option Bool) (st : LoopSt) (s : Sy
 /-- the symbols a loop acts on, in order -/
 def runSyms (cfg : Cfg) (verdict : String → Option Bool) (st : LoopSt) (syms : List Sym) : LoopSt :=
   syms.foldl (stepSym cfg verdict) st
-
-/-- find_sym(symtab, addr) -/
-def findSym (syms : List Sym) (a : Nat) : Option Sym :=
-  syms.find? fun s => s.addr ≤ a && a < s.addr + s.size
 
 def hexDigit (n : Nat) : Char :=
   if n < 10 then Char.ofNat (n + 48) else Char.ofNat (n - 10 + 97)
@@ -257,6 +331,13 @@ structure Module where
   syms : List Sym
   locs : List Nat
   setupFails : Bool := false -- fault oracle: the mprotect of setup fails
+  mapLen : Nat := 0          -- map->end - map->start
+  /-- process-wide constants, carried per module to keep the loop signatures:
+      `unpatchFixed` = which unpatch_func is modelled (see `Cfg.fixed`),
+      `mcountAddr` = address of libmcount's `mcount` (that of `__fentry__` is the
+      `fentryAddr` parameter of the update functions) -/
+  unpatchFixed : Bool := true
+  mcountAddr : Nat := 0
 
 /-- mcount_setup_trampoline for DYNAMIC_FENTRY_NOP / DYNAMIC_PATCHABLE (other
     types: same placement and protection; NONE without capstone writes nothing;
@@ -296,7 +377,10 @@ def updateModule (fentryAddr minSize : Nat) (verdict : Module → String → Opt
   let m1 := r.1
   if !r.2.2 then (m1, r.2.1, st) else
   let cfg : Cfg := { ty := m1.ty, minSize := minSize, start := m1.start, tramp := m1.trampoline,
-                     locs := m1.locs }
+                     locs := m1.locs, fixed := m1.unpatchFixed, mapLen := m1.mapLen,
+                     textLo := m1.textAddr - m1.start,
+                     textHi := m1.textAddr - m1.start + m1.textSize,
+                     symtab := m1.syms, entryFuncs := [fentryAddr, m1.mcountAddr] }
   let ls := patchFuncMatched cfg (verdict m1) m1.syms { code := m1.code, stats := st }
   ({ m1 with code := ls.code }, r.2.1, ls.stats)
 
